@@ -83,6 +83,8 @@ def replay_posmc(rec, verbose=False):
     prop = rec["property"]
     exe = posmc_exe()
     d = rec["detail"]
+    if "crash_argv" in d:
+        return replay_crash(d)
     if "start_fen" in d:
         start = d["start_fen"]
         if len(start.split()) == 4:
@@ -113,8 +115,16 @@ def replay_posmc(rec, verbose=False):
     return cls in res["violation_classes"]
 
 
+def replay_crash(d):
+    out = os.path.join(driver.TMP, "replay-%d.json" % os.getpid())
+    r = subprocess.run(d["crash_argv"] + ["--out", out], stdout=subprocess.PIPE, stderr=subprocess.STDOUT, text=True)
+    return r.returncode < 0 or r.returncode in (99, 134, 139)
+
+
 def replay(rec, verbose=False):
     prop = rec["property"]
+    if "crash_argv" in rec.get("detail", {}):
+        return replay_crash(rec["detail"])
     if prop in POSMC:
         return bool(replay_posmc(rec, verbose))
     import othermc
